@@ -280,11 +280,77 @@ def r5(ctx):
             cursor, op, rk, sorted(taken), sorted(compared)))
     if n < 2:
         raise AnalysisBroken('C18.R5: only %d cursor updates found' % n)
+    # a topic that ends before the template does still yields the identifiers it contains: when the next constant is not
+    # found, the rest of the topic is handed out before the function reports the incomplete match
+    outs0 = set(nid for nid, d, rhs, op, lhs in fn.assignments() if lhs is not None and fn.key(lhs).startswith('*') and rhs is not None)
+    for c, base in searches:
+        posv = None
+        for nid, d, rhs, op, lhs in fn.assignments():
+            if rhs is not None and fn.strip(rhs, casts=True) == c and d:
+                posv = d.split(':')[-1]
+        if posv is None:
+            continue
+        edges = fn.edges_with_atom('(%s == #18446744073709551615)' % posv, True)
+        if not edges:
+            raise AnalysisBroken('C18.R5: test of the search result against npos not found')
+        # the hand-out: the switch whose arms store the value into the out-parameters
+        hand = [b2.id for b2 in fn.blocks.values() if b2.tk == 'SwitchStmt' and
+                any(fn.block_of(o) in fn.reach([x for x in b2.succs if x is not None], cut_blocks=[b2.id]) for o in outs0)]
+        if not hand:
+            raise AnalysisBroken('C18.R5: hand-out switch of StringReplacer::match not found')
+        lost = False
+        for (b_, j) in edges:
+            tgt = fn.blocks[b_].succs[j]
+            free = fn.reach([tgt], cut_blocks=hand)
+            for r in fn.all('ReturnStmt'):
+                if fn.block_of(r) in free:
+                    lost = True
+        ctx.ob('C18.R5', fn, c, not lost, 'shortened topic keeps its identifiers',
+               'after a failed search for the next constant every exit passes the hand-out of the remaining text: %s' % (not lost))
     # every value handed out is one of the texts taken at the cursor
     outs = [(nid, rhs) for nid, d, rhs, op, lhs in fn.assignments() if lhs is not None and fn.key(lhs).startswith('*') and rhs is not None]
     for nid, rhs in outs:
         ctx.ob('C18.R5', fn, nid, fn.key(rhs) in taken, 'value handed out', '%s = %s' % (fn.key(fn.nodes[nid]['lhs']) if 'lhs' in fn.nodes[nid] else '*out', fn.key(rhs)),
                nontrivial=False)
+
+
+def r6(ctx):
+    ctx.rule('C18.R6', 'RequestImpl::split keeps the text inside quotes as the client wrote it: an empty token (two blanks in a '
+             'row) is dropped only while no quote is open, and the last character of a token is inspected only if the token '
+             'is not empty', minimum=2)
+    fb = ctx.fb
+    fn = fb.fn('ebusd::RequestImpl::split')
+    ctx.touch(fn)
+    gl = [c for c in fn.all('CallExpr') if (fn.nodes[c].get('callee') or '').endswith('getline') and len(fn.nodes[c].get('args', [])) >= 2]
+    if not gl:
+        raise AnalysisBroken('C18.R6: getline loop of RequestImpl::split not found')
+    tok = fn.key(fn.nodes[gl[0]]['args'][1])
+    escs = fn.local_where(lambda k, r: k == '%s[#0]' % tok)
+    if len(escs) != 1:
+        raise AnalysisBroken('C18.R6: open-quote variable of RequestImpl::split not recognised (%s)' % escs)
+    esc = escs[0]
+    n = 0
+    for c in fn.all('ContinueStmt'):
+        atoms = set((a[0], a[1]) for a in fn.atoms(c))
+        empty = any(k in ('(%s.length() == #0)' % tok, '%s.empty()' % tok, '(%s.size() == #0)' % tok, '(%s.length() <= #0)' % tok,
+                          '(%s.length() < #1)' % tok) and p for k, p in atoms)
+        if not empty:
+            continue
+        n += 1
+        ok = (esc, False) in atoms or ('(%s == #0)' % esc, True) in atoms
+        ctx.ob('C18.R6', fn, c, ok, 'empty token dropped', 'only while no quote is open (%s false): %s' % (esc, ok))
+    import re
+    for x in fn.all('CXXOperatorCallExpr'):
+        v = fn.nodes[x]
+        if v.get('op') == '[]' and len(v.get('args', [])) == 2 and fn.key(v['args'][0]) == tok and \
+                re.match(r'^\(%s\.(length|size)\(\) - #1\)$' % re.escape(tok), fn.key(v['args'][1])):
+            n += 1
+            ok = fn.needs_one_of(x, [('(%s.length() == #0)' % tok, False), ('%s.empty()' % tok, False), ('(%s.size() == #0)' % tok, False),
+                                     ('(%s.length() <= #0)' % tok, False), ('(%s.size() <= #0)' % tok, False),
+                                     ('(%s.length() < #1)' % tok, False), ('(%s.size() < #1)' % tok, False)])
+            ctx.ob('C18.R6', fn, x, ok, 'last character of the token', 'read only from a non-empty token: %s' % ok)
+    if n < 2:
+        raise AnalysisBroken('C18.R6: only %d sites found in RequestImpl::split' % n)
 
 
 def run(ctx):
@@ -293,3 +359,4 @@ def run(ctx):
     r3(ctx)
     r4(ctx)
     r5(ctx)
+    r6(ctx)
